@@ -283,6 +283,20 @@ def ordinal(n: int) -> str:
             return '%dth' % n
 
 
+def checked_integer(value: Any) -> Any:
+    """
+    Raises an OverflowError if the value is an integer over the limit of Python on
+    the digits of the conversions between integers and strings (the implementation
+    limit of xs:integer), otherwise returns the value.
+    """
+    if isinstance(value, int) and value.bit_length() > 10000:
+        try:
+            str(value)
+        except ValueError as err:
+            raise OverflowError(str(err)) from None
+    return value
+
+
 def get_double(value: FloatArgType, xsd_version: str | None = None) -> float:
     if isinstance(value, str):
         value = collapse_white_spaces(value)
